@@ -113,7 +113,30 @@ impl C05 {
             4 => { if let Some(x) = lib(ctx, "tensor", "any", &input, || lf.tensor(&lh)) { typed(ctx, "tensor", &x, &cat(&fs, &hs), &cat(&ft, &ht), &input); } }
             5 => { if let Some(x) = lib(ctx, "bitor", "any", &input, || &lf | &lh) { typed(ctx, "bitor", &x, &cat(&fs, &hs), &cat(&ft, &ht), &input); } }
             6 => { if let Some(x) = lib(ctx, "dagger", "any", &input, || lf.dagger()) { typed(ctx, "dagger", &x, &ft, &fs, &input); } }
-            7 => { if let Some(x) = libd(ctx, "compose", &input, || lf.compose(&lg)) { typed(ctx, "compose", &x, &fs, &gt, &input); } }
+            7 => {
+                if let Some(x) = libd(ctx, "compose", &input, || lf.compose(&lg)) { typed(ctx, "compose", &x, &fs, &gt, &input); }
+                // an arbitrary second operand (usually of another type, often of the same arity): whatever
+                // compose hands back is a diagram "returned by a categorical operation given well-formed
+                // arguments" -- it must be well-formed with source from the left and target from the right
+                if let Some(Some(x)) = lib(ctx, "compose", "arbitrary_pair", &input, || lf.compose(&lh)) {
+                    ctx.count(if ft == hs { "class:compose_arbitrary_pair_matching" } else { "class:compose_arbitrary_pair_mismatching_returned" });
+                    typed(ctx, "compose", &x, &fs, &ht, &input);
+                }
+                // same arity, different labels at one position
+                if !ft.is_empty() {
+                    let mut k = g.clone();
+                    let pos = r.below(ft.len());
+                    let node = k.s[pos];
+                    k.w[node] = k.w[node].wrapping_add(1 + r.below(3) as u32);
+                    if k.src_type() != ft {
+                        let lk = to_strict(&k);
+                        ctx.count("class:compose_relabelled_boundary");
+                        if let Some(Some(x)) = lib(ctx, "compose", "relabelled_boundary", &input, || lf.compose(&lk)) {
+                            typed(ctx, "compose", &x, &fs, &k.tgt_type(), &input);
+                        }
+                    }
+                }
+            }
             8 => { if let Some(x) = libd(ctx, "shr", &input, || &lf >> &lg) { typed(ctx, "shr", &x, &fs, &gt, &input); } }
             9 | 10 => {
                 let n = a.len();
